@@ -168,6 +168,7 @@ def stepTok (cfg : Cfg) (m : Mach Nat) (tok : String) : Option (Mach Nat × Stri
   let rest := (tok.drop 1).toString
   match tok.front with
   | 'f' => (rest.toNat?).map fun nk => (m, full m.curSet nk)
+  | '_' => some (m, "N")     -- a read outside the property statement's domain: not compared
   | '@' => match rest.toNat? with
     | some k => if k < m.regs.length then some ((mstep cfg leNat m (.sel k)).1, "N") else none
     | none => none
